@@ -214,9 +214,18 @@ inductive Path where
   | default     -- everything else: reverse proxy with `proxy.globalflushinterval`
 deriving DecidableEq, Repr
 
-/-- `case upgrade == "websocket" || upgrade == "Websocket"`, `case accept == "text/event-stream"`, `default`. -/
+/-- One character of `strings.EqualFold(s, t)` for an ASCII lower-case letter `t`: Unicode simple case folding.
+The orbit of an ASCII letter is its two cases, plus U+017F (long s) for `s` and U+212A (Kelvin sign) for `k`. -/
+def foldsTo (c t : Char) : Bool :=
+  c == t || c.toLower == t || (t == 's' && c == '\u017F') || (t == 'k' && c == '\u212A')
+
+/-- `strings.EqualFold(upgrade, "websocket")` -/
+def equalFoldWebsocket (s : String) : Bool :=
+  s.toList.length == 9 && (s.toList.zip "websocket".toList).all (fun ct => foldsTo ct.1 ct.2)
+
+/-- `case strings.EqualFold(upgrade, "websocket")`, `case accept == "text/event-stream"`, `default`. -/
 def handlerPath (upgrade accept : String) : Path :=
-  if upgrade = "websocket" ∨ upgrade = "Websocket" then .websocket
+  if equalFoldWebsocket upgrade then .websocket
   else if accept = "text/event-stream" then .sse else .default
 
 /-- What `proxy.newHTTPProxy(target, tr, flush)` is built from. -/
@@ -337,5 +346,24 @@ requests are reused by the later ones): `http.Transport`'s response-header timer
 keeps no state between requests and sends each request once, so each exchange is what it would be alone. -/
 def serveHistory (rt : Int → Nat → Int → RT) (tr : Transport) (deadline : Option Int) (us : List Upstream) : List Exchange :=
   us.map (exchange rt tr deadline)
+
+/-! ### The idle-connection pool of a transport (`MaxIdleConnsPerHost`, `IdleConnTimeout`) -/
+
+/-- `http.Transport.maxIdleConnsPerHost()`: zero means `DefaultMaxIdleConnsPerHost` (2); a negative value keeps
+no connection at all (`len(idles) >= max` is always true). -/
+def effectiveMaxIdle (v : Int) : Nat := if v = 0 then 2 else v.toNat
+
+/-- Of `n` connections to one upstream that become idle together, how many the transport keeps. -/
+def poolKept (tr : Transport) (n : Nat) : Nat := min n (effectiveMaxIdle tr.maxIdleConnsPerHost)
+
+/-- When a connection that became idle at `doneAt` is closed by the transport: `IdleConnTimeout` later, or never
+when no idle timeout is set (`≤ 0`). -/
+def idleCloseAt (tr : Transport) (doneAt : Int) : Option Int :=
+  if 0 < tr.idleConnTimeout then some (doneAt + tr.idleConnTimeout) else none
+
+/-- The fate of `n` connections that become idle at `doneAt`: the excess is closed at once, the kept ones at
+`idleCloseAt` (`none` = stay open). net/http's contract for the two fields, sampled by the stream `c19.pool`. -/
+def poolFate (tr : Transport) (n : Nat) (doneAt : Int) : List (Option Int) :=
+  List.replicate (n - poolKept tr n) (some doneAt) ++ List.replicate (poolKept tr n) (idleCloseAt tr doneAt)
 
 end Fabio.Model.C19
